@@ -104,10 +104,11 @@ PROPERTIES["C15"] = dict(
     outside=["texts longer than the byte bound, more tokens than the bound, more than two consecutive declarations",
              "collect_proc_dec / collect_type_dec (identifier classification needs LookupTable)"],
     harnesses=[
-        H("features::semantic_tokens::__verif::c15_s1_q", Q, "delta chain decodes to LSP token starts; UTF-16 length; class<->legend", "any valid UTF-8 text <= 4 bytes, 2 tokens of symbolic kind and range, any split; unwind 7", timeout=900),
+        H("features::semantic_tokens::__verif::c15_s1_chain_q", Q, "create_semantic_token/map_token: delta of two consecutive classified tokens decodes to their LSP positions; UTF-16 length", "any valid UTF-8 text <= 4 bytes, 2 tokens on symbolic char-boundary ranges; unwind 6", timeout=1200),
+        H("features::semantic_tokens::__verif::c15_s1_collect_across", QT, "real collect_error on two consecutive declarations sharing previous_token_pos", "same text, one token of symbolic kind/range per declaration", timeout=1500, mem_gb=24),
         H("features::semantic_tokens::__verif::c15_s3_all_kinds", QT, "map_token for each of the 36 token kinds", "one token, all kinds, symbolic literal values", timeout=600),
         H("features::semantic_tokens::__verif::c15_twin_must_fail", QT, "vacuity twin", "", expect="fail", timeout=600),
-        H("features::semantic_tokens::__verif::c15_s1_t", T, "same as s1_q", "any valid UTF-8 text <= 5 bytes, 3 tokens; unwind 8", timeout=3600, mem_gb=24),
+        H("features::semantic_tokens::__verif::c15_s1_chain_t", T, "same as s1_chain_q", "any valid UTF-8 text <= 6 bytes; unwind 8", timeout=3600, mem_gb=24),
     ],
 )
 
@@ -148,8 +149,8 @@ PROPERTIES["C01"] = dict(
         "affected() instantiated with a harness node type Leaf = ';'+ (one token of look-ahead) on an arbitrary old token "
         "array, an arbitrary truthful window with up to 2 inserted tokens, an arbitrary old node and every reachable parser "
         "position: whenever the old node is REUSED, a parse from scratch at that position yields the same node and rest "
-        "(A2); a reused node keeps exactly its lexical/syntax messages (A3); Reference::parse restores the caller's frame and "
-        "computes offset in the new stream (A4); expect() with an old node is observationally equal to expect() without (A4b). "
+        "(A2); a reused node keeps exactly its lexical/syntax messages (A3); Reference::parse, from scratch, restores the caller's frame "
+        "and computes offset relative to the enclosing Reference in the new stream (A4). "
         "A pass is necessary, not sufficient, for C01."),
     assumptions=[
         "node type is the harness-defined Leaf (';'+), not a real AST node; real node parsers, many()/parse_list(), the lexer window and the symbol table are NOT covered",
@@ -168,10 +169,8 @@ PROPERTIES["C01"] = dict(
         H("parser::utility::__verif::c01_a2_q", Q, "affected(): reuse => same as parse from scratch", "4 old tokens + Eof of symbolic kind, any window, <=2 inserted tokens, any old ';'-run node, any reachable position; unwind 8", timeout=1200, mem_gb=20),
         H("parser::utility::__verif::c01_a3_messages", QT, "reused node keeps lexical/syntax messages, drops build/semantic ones", "2 messages of symbolic class", timeout=900),
         H("parser::utility::__verif::c01_a2_twin_must_fail", QT, "vacuity twin", "", expect="fail", timeout=900),
-        H("parser::__verif::c01_a4_q", QT, "Reference::parse frame conditions and offset", "4 old tokens + Eof, any window, <=1 inserted, any position/frame; unwind 8", timeout=1200, mem_gb=20),
-        H("parser::__verif::c01_a4b_q", Q, "expect(Some(old)) == expect(None)", "4 old tokens + Eof, any window, <=2 inserted; unwind 8", timeout=1500, mem_gb=20),
+        H("parser::__verif::c01_a4_scratch", QT, "Reference::parse frame conditions and offset: no old node", "concrete window/position; 4 old tokens + Eof of symbolic kind, symbolic enclosing frame and old offsets", timeout=900),
         H("parser::__verif::c01_a4_twin_must_fail", QT, "vacuity twin", "", expect="fail", timeout=900),
         H("parser::utility::__verif::c01_a2_t", T, "affected(): reuse => same as parse from scratch", "6 old tokens + Eof; unwind 10", timeout=5400, mem_gb=30),
-        H("parser::__verif::c01_a4b_t", T, "expect(Some(old)) == expect(None)", "6 old tokens + Eof; unwind 10", timeout=5400, mem_gb=30),
     ],
 )
